@@ -95,7 +95,11 @@ def finish(report, tier, seed, t0, replay_key=None):
     if replay_key is not None:
         viol = [o for o in viol if "%s|%s" % (o.rule, o.key) == replay_key]
 
-    os.makedirs(os.path.join(VERIF, "evidence", "replay"), exist_ok=True)
+    evdir = os.path.join(VERIF, "evidence")
+    if os.path.realpath(factsmod.repo_root()) != "/repo":
+        # a run against a scratch tree (mutant self-test, regression probe) must not overwrite the evidence of /repo
+        evdir = os.path.join(os.environ.get("TMPDIR", "/tmp"), "p2verif-scratch-evidence-%d" % os.getpid())
+    os.makedirs(os.path.join(evdir, "replay"), exist_ok=True)
     print("== %s tier=%s: %d rule instances, %d hold, %d known findings, %d violations" % (
         pid, tier, len(report.obls), sum(1 for o in report.obls if o.ok), len(kf), len(viol)))
     for k, v in sorted(report.analysed.items()):
@@ -107,7 +111,7 @@ def finish(report, tier, seed, t0, replay_key=None):
     for k in stale:
         print("   note: listed known finding no longer fires (repaired?): %s|%s" % (k[1], k[2]))
     for i, o in enumerate(viol):
-        rp = os.path.join(VERIF, "evidence", "replay", "%s-%d.json" % (pid, i))
+        rp = os.path.join(evdir, "replay", "%s-%d.json" % (pid, i))
         with open(rp, "w") as fh:
             json.dump({"property": pid, "replay_key": "%s|%s" % (o.rule, o.key), **o.as_json()}, fh, indent=1)
         print("%s  rule=%s  instance=%s  %s" % (o.loc, o.rule, o.key, o.detail))
@@ -149,6 +153,9 @@ def finish(report, tier, seed, t0, replay_key=None):
         "wall_s": round(time.time() - t0, 2),
         "violations": len(viol),
     }
-    with open(os.path.join(VERIF, "evidence", "%s.json" % pid), "w") as fh:
+    with open(os.path.join(evdir, "%s.json" % pid), "w") as fh:
         json.dump(ev, fh, indent=1)
+    if evdir != os.path.join(VERIF, "evidence"):
+        import shutil
+        shutil.rmtree(evdir, ignore_errors=True)
     return 1 if viol else 0
